@@ -204,6 +204,9 @@ func runDirHistory(c *hx.Ctx, mode string, ops []dirOp) {
 		obs = append(obs, res+"|"+dirJoin(lc)+"|"+rebC+"|"+liveV+"|"+rebV)
 	}
 	cm.Destroy()
+	// configmanager.Reset keeps the remembered clusters_configs path: clear it, or every later case dumps in directory mode
+	configmanager.SetMosnConfig(&v2.MOSNConfig{})
+	configmanager.Reset()
 	c.Emit("C12", "dirh "+mode+" "+strings.Join(toks, " "), strings.Join(obs, " "))
 	c.Count(fmt.Sprintf("dirh.len=%02d", len(ops)))
 	c.Count("dirh.mode=" + mode)
